@@ -294,6 +294,7 @@ Definition canon_answer (e : env) (q : query) : answer :=
   | QNs t => ANs (match precomputed t with Some b => negb b | None => false end)
   | QSchema t => ASchema (full_bt e t)
   | QSub _ _ => ASub
+  | QFail => ASub   (* never used: a default build contains no QFail *)
   end.
 
 Lemma is_cluster_scoped_default e s t :
@@ -324,13 +325,14 @@ Lemma run_queries_default e qs : forall s,
 Proof.
   induction qs as [|q qs IH]; intros s HE HD HQ; simpl.
   - exists s. auto.
-  - simpl in HQ. apply Bool.andb_true_iff in HQ. destruct HQ as [Hq Hqs]. destruct q as [t|t|fv sc].
+  - simpl in HQ. apply Bool.andb_true_iff in HQ. destruct HQ as [Hq Hqs]. destruct q as [t|t|fv sc|].
     + destruct (is_cluster_scoped_default e s t HE HD) as [s1 [E1 [D1 _]]]. rewrite E1.
       destruct (IH s1 HE D1 Hqs) as [s2 [E2 D2]]. rewrite E2. exists s2. auto.
     + destruct (schema_for_default e s t HE HD) as [s1 [E1 [D1 _]]]. rewrite E1.
       destruct (IH s1 HE D1 Hqs) as [s2 [E2 D2]]. rewrite E2. exists s2. auto.
     + simpl in Hq. destruct (set_schema_default e s fv sc false HD Hq) as [s1 [E1 [D1 _]]]. rewrite E1.
       destruct (IH s1 HE D1 Hqs) as [s2 [E2 D2]]. rewrite E2. exists s2. auto.
+    + discriminate Hq.
 Qed.
 
 Lemma run_build_default e s b :
